@@ -2,8 +2,9 @@
 (* Stage (e) for C20: validates (configuration, retries, smallest and largest of K sampled results) records of the
    real internal/backoff Exponential.Backoff, and dial instants of a real subchannel under virtual time.
    Weak clause (exact known input class, see KnownMarks):
-     KNOWN_NegativeNearMaxInt64 - a negative duration is returned and the upper end of the jitter window reaches
-                                  MaxInt64 (the float64 -> int64 conversion overflows) *)
+     KNOWN_NegativeNearMaxInt64 - a negative duration is returned for retries >= 1 by a configuration with
+                                  (1 + jitter) * MaxDelay >= MaxInt64 (up to the tolerance): the delay before jitter
+                                  is at most MaxDelay, so only then can the float64 -> int64 conversion overflow *)
 EXTENDS Backoff, KnownMarks
 VARIABLES l, idx, last, cfg
 vars == <<l, idx, last, cfg>>
@@ -16,7 +17,7 @@ Check(e) ==
   CASE e.ev = "bo" ->        \* c, n, k, minneg, min, maxneg, max
          LET neg == e.minneg \/ e.maxneg
              t == TargetP(e.c, e.n)
-             known == neg /\ e.n >= 1 /\ NearMaxInt64T(e.c, t) IN
+             known == neg /\ e.n >= 1 /\ NearMaxInt64T(e.c, ToP(e.c.max)) IN
          /\ Keep
          /\ MarkWeak(known, "KNOWN_NegativeNearMaxInt64", l)
          /\ MarkStrong(neg /\ ~known, "C20_NonNegative", l)
